@@ -43,6 +43,12 @@ CHECKS = {
     "C12": ("model_checking", "bumpmc arena explorer (profile allocapi)", "§4 C12",
             "BFS over allocate/deallocate/grow/grow_zeroed/shrink on up to three handles with independent old/new sizes and alignments mixed with native allocations and resets; oracle: fit, alignment, prefix, zero tail, disjointness, Err leaves the block intact.",
             "exhaustive history enumeration of Allocator calls"),
+    "C18": ("exploration", "bumpmc grid engine (capacity, growth) + arena explorer (profile capprobe)", "§4 C18",
+            "Exhaustive grid: every capacity of a fixed set x MIN_ALIGN x request compositions served under a refusing allocator; growth workloads over fixed/ramp/alternating request sizes up to 2^18 (2^24 thorough) bytes judged on chunk-size monotonicity, logarithmic request count and bounded held/occupied ratio; BFS with a terminal probe of exactly chunk_capacity() bytes at every reached state.",
+            "exhaustive grid enumeration + exhaustive history enumeration with capacity probes"),
+    "C19": ("exploration", "bumpmc grid engine (overflow)", "§4 C19",
+            "Exhaustive grid: 29 size-taking entry points x element sizes x 16 count classes around every overflow boundary x MIN_ALIGN x empty/non-empty container; impossible totals must end in Err/panic, any success must be backed by a held block, lengths must equal the mathematical value.",
+            "exhaustive boundary-grid enumeration"),
 }
 
 PENDING = {
